@@ -89,7 +89,7 @@ def run(prop, tier, seed, out):
         cov["rule"] = ("one evaluation = one event processed by the real filter inside a random history of Rotate calls, rotation payloads and events (sequential and 2..4 concurrent "
                        "clients; byte strings incl. empty and non-UTF-8; event id / per-event salt / info present or absent); non-trivial = events whose every value was classified")
         cov["selftest_corrupted_histories_rejected"] = len(ids2)
-        cov["samples"] = rep["samples"][:2]
+        cov["samples"] = (rep.get("samples") or [])[:2]
         out.assumptions += ["trial decryption / HMAC recomputation over every key material that ever existed identifies the material used; AES-GCM and HKDF are trusted",
                             "one rotating client per history, so rotation labels follow the order in which rotations take effect"]
         for m in rep["mismatches"] or []:
